@@ -902,6 +902,10 @@ impl<Writer: Write> Muxer<Writer> {
                 std::io::ErrorKind::InvalidData,
                 "duration overflow",
             )),
+            Mp4WriterError::ParameterSetTooLarge => MuxerError::Io(std::io::Error::new(
+                std::io::ErrorKind::InvalidData,
+                "parameter set larger than 65535 bytes",
+            )),
             Mp4WriterError::AlreadyFinalized => MuxerError::AlreadyFinished,
         }
     }
